@@ -223,8 +223,12 @@ func (m *measureWorld) dataPoint(row map[string]any) *measurev1.DataPointValue {
 	if v.null&1 != 0 {
 		ps = &modelv1.TagValue{Value: &modelv1.TagValue_Null{}}
 	}
+	when := m.ts(vlib.Int(row, "t"))
+	if _, ok := row["sec"]; ok {
+		when = m.base.Add(time.Duration(vlib.Int(row, "sec")) * time.Second)
+	}
 	return &measurev1.DataPointValue{
-		Timestamp: timestamppb.New(m.ts(vlib.Int(row, "t"))),
+		Timestamp: timestamppb.New(when),
 		Version:   int64(vlib.Int(row, "v")),
 		TagFamilies: []*modelv1.TagFamilyForWrite{{Tags: []*modelv1.TagValue{
 			tagStr(m.seriesName(vlib.Int(row, "s"))), tagInt(int64(id)), tagInt(a), tagStr(b),
@@ -558,6 +562,10 @@ func (m *measureWorld) checkCover(ctx context.Context, st vlib.State, op string,
 	}
 	m.res.Inc("cover_queries")
 	if sig, msg := m.matchGroups(resp.DataPoints, vlib.List(st, "view"), nil, ackedMap(st)); sig != "" {
+		if strings.HasSuffix(sig, "negative-zero") {
+			fail(sig, "%s (after %s)", msg, op) // one root cause whatever the step: the decimal float column drops the sign of zero
+			return false
+		}
 		fail(sig+"-after-"+op, "%s", msg)
 		return false
 	}
@@ -631,6 +639,18 @@ func (m *measureWorld) checkQuery(ctx context.Context, st vlib.State, ev map[str
 			req.Criteria = &modelv1.Criteria{Exp: &modelv1.Criteria_Le{Le: &modelv1.LogicalExpression{Op: modelv1.LogicalExpression_LOGICAL_OP_AND, Left: ent, Right: req.Criteria}}}
 		}
 	}
+	ordered := vlib.Str(q, "order") == "time"
+	if ordered {
+		srt := modelv1.Sort_SORT_ASC
+		if !vlib.Bool(q, "asc") {
+			srt = modelv1.Sort_SORT_DESC
+		}
+		req.OrderBy = &modelv1.QueryOrder{Sort: srt}
+		req.Offset = uint32(vlib.Int(q, "offset"))
+		if l := vlib.Int(q, "limit"); l > 0 {
+			req.Limit = uint32(l)
+		}
+	}
 	resp, err := m.query(ctx, req)
 	m.res.Inc("criteria_queries")
 	desc := vlib.Canon(q)
@@ -638,11 +658,53 @@ func (m *measureWorld) checkQuery(ctx context.Context, st vlib.State, ev map[str
 		fail("query-rejected:"+vlib.Str(vlib.Map(vlib.Map(q, "crit"), "c1"), "op"), "query %s failed: %v", desc, err)
 		return false
 	}
+	if ordered {
+		return m.checkWindow(resp.DataPoints, q, ev, st, desc, fail)
+	}
 	if sig, msg := m.matchGroups(resp.DataPoints, vlib.List(ev, "groups"), vlib.List(ev, "ambiguous"), ackedMap(st)); sig != "" {
 		c1 := vlib.Map(vlib.Map(q, "crit"), "c1")
 		fail(sig+"-in-query:"+vlib.Str(c1, "op")+":"+vlib.Str(c1, "tag")+":"+m.cfg.Index, "%s; query %s", msg, desc)
 		return false
 	}
 	_ = proto.Equal
+	return true
+}
+
+// checkWindow verifies an ordered query with offset/limit: the rows are admissible rows of the full result, no key
+// twice, in the requested order, and the sequence of their sort keys is exactly the spec's window of sort keys.
+func (m *measureWorld) checkWindow(dps []*measurev1.DataPoint, q, ev map[string]any, st vlib.State, desc string, fail func(string, string, ...any)) bool {
+	tag := ":" + map[bool]string{true: "asc", false: "desc"}[vlib.Bool(q, "asc")]
+	if len(vlib.List(ev, "ambiguous")) > 0 {
+		m.res.Inc("window_queries_skipped_ambiguous")
+		return true
+	}
+	m.res.Inc("window_queries")
+	// every returned row must belong to the full result (all groups optional: a window returns a part of them)
+	if sig, msg := m.matchGroups(dps, vlib.List(ev, "groups"), vlib.List(ev, "groups"), ackedMap(st)); sig != "" {
+		fail(sig+"-in-ordered-query"+tag, "%s; query %s", msg, desc)
+		return false
+	}
+	want := vlib.Ints(vlib.List(ev, "wkeys"))
+	var got []int
+	for _, dp := range dps {
+		got = append(got, int(dp.Timestamp.AsTime().Sub(m.base)/time.Minute))
+	}
+	if fmt.Sprint(got) != fmt.Sprint(want) {
+		kind := "window-differs"
+		sorted := sort.SliceIsSorted(got, func(i, j int) bool {
+			if vlib.Bool(q, "asc") {
+				return got[i] < got[j]
+			}
+			return got[i] > got[j]
+		})
+		switch {
+		case !sorted:
+			kind = "result-not-sorted"
+		case len(got) != len(want):
+			kind = "window-size-differs"
+		}
+		fail(kind+tag, "ordered by time %s offset=%d limit=%d: sort keys returned %v, spec window %v; query %s", tag[1:], vlib.Int(q, "offset"), vlib.Int(q, "limit"), got, want, desc)
+		return false
+	}
 	return true
 }
